@@ -74,8 +74,19 @@ impl TBS {
             }
         }
 
-        // put records in canonical order
-        rrset.sort();
+        // RFC 4034 section 6.3: the RRs are ordered by their RDATA in canonical form (section 6.2),
+        // taken as left-justified unsigned octet strings, and an RRset has no duplicate RRs
+        let mut rdatas = Vec::with_capacity(rrset.len());
+        for record in rrset {
+            let mut rdata = Vec::new();
+            let mut rdata_encoder = BinEncoder::new(&mut rdata);
+            rdata_encoder.canonical_form = true;
+            rdata_encoder.name_encoding = NameEncoding::Uncompressed;
+            record.data.emit(&mut rdata_encoder)?;
+            rdatas.push(rdata);
+        }
+        rdatas.sort();
+        rdatas.dedup();
 
         let name = determine_name(name, input.num_labels)?;
 
@@ -99,7 +110,7 @@ impl TBS {
         input.emit(&mut encoder)?;
 
         // construct the rrset signing data
-        for record in rrset {
+        for rdata in rdatas {
             //             RR(i) = name | type | class | OrigTTL | RDATA length | RDATA
             //
             //                name is calculated according to the function in the RFC 4035
@@ -119,14 +130,12 @@ impl TBS {
             input.original_ttl.emit(&mut encoder)?;
             //
             //                RDATA length
-            let rdata_length_place = encoder.place::<u16>()?;
+            u16::try_from(rdata.len())
+                .map_err(|_| ProtoError::from("RDATA length exceeds u16::MAX"))?
+                .emit(&mut encoder)?;
             //
-            //                All names in the RDATA field are in canonical form (set above)
-            record.data.emit(&mut encoder)?;
-
-            let length = u16::try_from(encoder.len_since_place(&rdata_length_place))
-                .map_err(|_| ProtoError::from("RDATA length exceeds u16::MAX"))?;
-            rdata_length_place.replace(&mut encoder, length)?;
+            //                All names in the RDATA field are in canonical form (encoded above)
+            encoder.emit_slice(&rdata)?;
         }
 
         Ok(Self(buf))
